@@ -1070,6 +1070,8 @@ def run_composites(chk, variant="asan"):
             continue
         rd, rb, rv, tol = ref
         gd, gb, gv = env["y"]
+        # float32 rounding of the quantities entering the formula: the operands set the scale
+        mag = max([1.0] + [abs(t) for nm in ("x", "t") if nm in env for t in env[nm][2] if not math.isinf(t)])
         key = "funcs:composite:%s" % call_key(" ".join(call))
         if (rd, rb) != (gd, gb) or len(rv) != len(gv):
             chk.report(key + ":shape", "%s: result shape %s x%d, the documented function gives %s x%d" % (" ".join(call), gd, gb, rd, rb),
@@ -1087,10 +1089,9 @@ def run_composites(chk, variant="asan"):
                 ok = abs(g - e) <= 1e-3 * max(1.0, abs(e))
                 err = abs(g - e)
             else:
-                unit = ulp32(max(1.0, abs(e)))
-                err = abs(g - e) / unit
+                err = abs(g - e) / ulp32(max(1.0, abs(e), mag))
                 ok = err <= tol + 1
-                worst = max(worst, err)
+                worst = max(worst, abs(g - e) / ulp32(max(1.0, abs(e))))
             if not ok:
                 chk.report(key + ":value", "%s: element %d is %r, the documented formula gives %r (error %.3g)" % (" ".join(call), i, g, e, err),
                            {"family": FAMILY, "harness": HARNESS, "variant": variant, "stateful": True, "lines": lines,
@@ -1283,7 +1284,9 @@ def run_metamorphic(chk, variant="asan"):
         done += 1
         fd, fb, fvals = fv[0]
         rv = pick(repl, ri, "force")
-        if not rv or rv[0] is None or rv[0] != fv[0]:
+        # a result without a batch is shared by all samples
+        want_repl = (fd, B, fvals if fb == B else fvals * B)
+        if not rv or rv[0] is None or rv[0] != want_repl:
             chk.report(key + ":replicate", "program(x with batch 1) differs from program(batch::concat of %d copies of x): %s vs %s" % (B, fv[0], rv[0] if rv else None), rp)
             continue
         vol = volume(fd)
@@ -1365,7 +1368,14 @@ def malformed_streams(rng, tier):
                 for nm in live:
                     g.emit("force " + nm)
                 g.emit("value " + p.name)
-            streams.append(g.lines)
+            # the operator counts are read immediately before and after every call
+            lines = []
+            for l in g.lines:
+                if l.startswith("let "):
+                    lines += ["nops", l, "nops"]
+                elif l != "nops":
+                    lines.append(l)
+            streams.append(lines)
         finally:
             g.close()
     return streams
@@ -1380,7 +1390,6 @@ def run_malformed(chk, variant="asan"):
     for lines in streams:
         impl, reports = vrun.run_impl(exe, lines, stateful=True)
         chk.traces += 1
-        before = None
         snap = {}
         last_let = None
         for i, (l, o) in enumerate(zip(lines, impl)):
@@ -1392,14 +1401,12 @@ def run_malformed(chk, variant="asan"):
                 break
             if w[0] == "let":
                 last_let = (i, l, o)
-            if w[0] == "nops":
-                if before is not None and last_let is not None and last_let[2].startswith("err") and before[0] > -1:
-                    if o != before[1] and last_let[0] > before[0]:
-                        rp["lines"] = lines[:i + 1]
-                        chk.report("funcs:malformed:graph-changed:" + call_key(last_let[1]),
-                                   "%s is rejected but the graphs changed from `%s` to `%s` operators" % (last_let[1], before[1], o), rp)
+                if o.startswith("err") and 0 < i < len(lines) - 1 and lines[i - 1] == "nops" and lines[i + 1] == "nops":
                     checked += 1
-                before = (i, o)
+                    if impl[i - 1] != impl[i + 1] and not impl[i + 1].startswith("crash"):
+                        rp["lines"] = lines[:i + 2]
+                        chk.report("funcs:malformed:graph-changed:" + call_key(l),
+                                   "%s is rejected but the graphs changed from `%s` to `%s` operators" % (l, impl[i - 1], impl[i + 1]), rp)
             if w[0] in ("force", "value"):
                 k = w[0] + " " + w[1]
                 if k in snap and snap[k] != o:
